@@ -46,12 +46,12 @@ func c18Unformatted(n int) string {
 	return b.String()
 }
 
-var knutPlain = "/verif/.cache/bin/knut-plain"
+var knutPlain = core.BinaryPath
 
 func c18Dir(e *core.Env) string {
 	base := "/dev/shm"
 	if st, err := os.Stat(base); err != nil || !st.IsDir() {
-		base = "/verif/.cache/run"
+		base = filepath.Join(core.Root, ".cache", "run")
 	}
 	d := filepath.Join(base, fmt.Sprintf("kmc-C18-%d", os.Getpid()))
 	os.RemoveAll(d)
